@@ -5,6 +5,7 @@
 //       enum   = ask for the vocabulary strings (Config::enumerate_vocab)
 //       build  = load with config.write_mmap (ARPA -> binary conversion while loading)
 //       method = util::LoadMethod for binary files (0 LAZY, 1 POPULATE_OR_LAZY, 2 POPULATE_OR_READ, 3 READ)
+//       ngrams=<path> = after a successful load also score these n-grams (one per line, words separated by blanks)
 //   stdout, one line per case:
 //       OK bound=<n> order=<k> queries=<q> hash=<h> enum=<words seen>
 //       EXC <class> <message head>          class: Format ProbingSize SpecialWord VocabLoad Config EndOfFile ParseNumber
@@ -25,6 +26,7 @@
 #include <cmath>
 #include <cstdio>
 #include <cstring>
+#include <fstream>
 #include <iostream>
 #include <sstream>
 #include <string>
@@ -93,9 +95,29 @@ template <class M> void QueryAll(const M &m, uint64_t seed, uint64_t &queries, u
   }
 }
 
+static std::string g_ngrams;   // ngrams=<path>: n-grams of the model the file was derived from, one per line
+
+// score the listed n-grams word by word from the null context: reaches the records of every order, the last ones included
+template <class M> void QueryListed(const M &m, uint64_t &queries, uint64_t &hash) {
+  if (g_ngrams.empty()) return;
+  std::ifstream in(g_ngrams.c_str());
+  std::string line;
+  typename M::State st, out;
+  while (std::getline(in, line)) {
+    std::istringstream ws(line); std::string w;
+    st = m.NullContextState();
+    while (ws >> w) {
+      lm::FullScoreReturn r = m.FullScore(st, m.GetVocabulary().Index(w), out);
+      hash = Mix(hash, bits(r.prob)); hash = Mix(hash, r.ngram_length);
+      st = out; ++queries;
+    }
+  }
+}
+
 template <class M> void LoadTyped(const char *path, const Config &config, uint64_t seed, CountWords *words) {
   M m(path, config);
   uint64_t queries = 0, hash = 0;
+  QueryListed(m, queries, hash);
   QueryAll(m, seed, queries, hash);
   std::printf("OK bound=%u order=%u queries=%llu hash=%llx enum=%llu\n", (unsigned)m.GetVocabulary().Bound(), (unsigned)m.Order(),
               (unsigned long long)queries, (unsigned long long)hash, (unsigned long long)(words ? words->count : 0));
@@ -114,6 +136,18 @@ static void LoadVirt(const char *path, const Config &config, uint64_t seed, Coun
     lm::FullScoreReturn r = m->BaseFullScore(&a[0], w, &b[0]);
     hash = Mix(hash, bits(r.prob)); hash = Mix(hash, r.ngram_length);
     ++queries;
+  }
+  if (!g_ngrams.empty()) {
+    std::ifstream in(g_ngrams.c_str());
+    std::string line;
+    while (std::getline(in, line)) {
+      std::istringstream ws(line); std::string w;
+      m->NullContextWrite(&a[0]);
+      while (ws >> w) {
+        lm::FullScoreReturn r = m->BaseFullScore(&a[0], m->BaseVocabulary().Index(w), &b[0]); a.swap(b);
+        hash = Mix(hash, bits(r.prob)); ++queries;
+      }
+    }
   }
   std::printf("OK bound=%llu order=%u queries=%llu hash=%llx enum=%llu\n", (unsigned long long)bound, (unsigned)m->Order(),
               (unsigned long long)queries, (unsigned long long)hash, (unsigned long long)(words ? words->count : 0));
@@ -142,6 +176,7 @@ static int Child(const std::vector<std::string> &f) {
   for (size_t i = 4; i < f.size(); ++i) {
     if (f[i] == "enum") want_enum = true;
     else if (!f[i].compare(0, 6, "build=")) build = f[i].substr(6);
+    else if (!f[i].compare(0, 7, "ngrams=")) g_ngrams = f[i].substr(7);
     else if (!f[i].compare(0, 7, "method=")) config.load_method = (util::LoadMethod)std::atoi(f[i].c_str() + 7);
     else if (f[i] == "unk=throw") config.unknown_missing = lm::THROW_UP;
     else if (f[i] == "sent=silent") config.sentence_marker_missing = lm::SILENT;
